@@ -954,8 +954,10 @@ fn parse_number(cursor: &mut Cursor) -> Result<Option<usize>, Error> {
             .with_source(e)
         }));
         // widths and precisions are allocation sizes and the standard
-        // formatting machinery only supports 16 bit values for them.
-        if num > u16::MAX as usize {
+        // formatting machinery only supports 16 bit values for them.  Some
+        // conversions ask it for a few digits more than the precision given
+        // (`%e` one, `%g` up to four), so the limit leaves room for those.
+        if num > u16::MAX as usize - 32 {
             return Err(Error::new(
                 ErrorKind::InvalidOperation,
                 format!(
